@@ -137,6 +137,10 @@ func updateAnchoredOperation(op *operation.AnchoredOperation, sidetreeTxn *txn.S
 	op.TransactionNumber = sidetreeTxn.TransactionNumber
 	// The genesis time of the protocol that was used for this operation
 	op.ProtocolVersion = sidetreeTxn.ProtocolVersion
+	// The canonical reference of the transaction this operation was batched within
+	op.CanonicalReference = sidetreeTxn.CanonicalReference
+	// The equivalent references of the transaction this operation was batched within
+	op.EquivalentReferences = sidetreeTxn.EquivalentReferences
 
 	return op
 }
